@@ -219,6 +219,21 @@ CHECKS = {
                 "Gaussian-elimination claim is bounded by the entry box.",
         "technique": SOLVER_TECH + "; symbolic divisors realised by value-forking",
     },
+    "C18": {
+        "level": "model_checking",
+        "text": "Bounded symbolic model checking: blade bitmaps are enumerated (all pairs and triples of basis blades in "
+                "dimensions 0-3; thorough 4 and pairs in 5) while blade coefficients and every diagonal metric entry are "
+                "unbounded symbolic integers (rationals for the inverse); the real Space/MultiVector code runs on numpy object "
+                "arrays of z3 proxies and z3 proves, for all coefficients and all diagonal metrics: every product of two blades "
+                "(* ^ | << >> scalar) equals the corresponding grade part of an independent list-based blade product, "
+                "associativity on triples, reverse/involution (anti)automorphisms, dual, squared norm, inverse*blade = 1 where "
+                "the blade is non-null; linearity in each argument on multivectors with symbolic coefficients (metrics in "
+                "{1,-1,0,2}); the bit kernels on symbolic bitmaps; ==/hash/bool against coefficient-wise comparison.",
+        "design_ref": "DESIGN.md §4 C18",
+        "note": "Trusted: the list-based blade product oracle, proxies, z3 (NIA). Diagonal metrics only. With bilinearity the "
+                "blade-wise claims extend to all multivectors of the covered dimensions.",
+        "technique": SOLVER_TECH + "; numpy object arrays of proxies inside the real Space/MultiVector",
+    },
 }
 
 _PENDING = "check not built yet in this session (the design in DESIGN.md applies; will be claimed once its harness exists)"
